@@ -522,6 +522,31 @@ def check(ctx, R):
             why = s.kind
             if s.cls == "index" and s.cs is not None:
                 why = "%s(%s)" % (s.kind, ", ".join(sshow(FnView(s.fn).arg(s.cs, i, 8), 4) for i in range(len(s.ops))))
+            if lay == "L2" and s.cls == "index" and s.cs is not None and key not in table and len(s.ops) == 2 \
+                    and re.search(r"::index(_mut)?$", F.strip_generics(s.cs.name)) and mir_root(s.fn, s.ops[1])[0] == "const":
+                # a constant index into a decoded container: sound local pattern = a dominating non-emptiness / length test of
+                # that container (decoded containers can be empty: Update::decode creates a client's list before reading its blocks)
+                c = mir_root(s.fn, s.ops[1])[1]
+                v2 = FnView(s.fn)
+                cont = mir_root(s.fn, s.ops[0])
+                okg = False
+                calls_by_bb = {x.bb: x for x in s.fn.calls()}
+                for l in v2.guards(s.bb):
+                    for t in walk(l.term):
+                        if t[0] == "call" and len(t) > 3 and t[3] in calls_by_bb:
+                            gc = calls_by_bb[t[3]]
+                            nm = F.strip_generics(gc.name)
+                            if gc.args and mir_root(s.fn, gc.args[0]) == cont:
+                                if nm.endswith("::is_empty") and l.polarity is False and c == 0:
+                                    okg = True
+                                if nm.endswith("::len") and l.term[0] == "bin":
+                                    okg = True  # a comparison with the container's length
+                if okg:
+                    R.ob(rid, s.fn, s.site, True, "constant index %s under a dominating non-emptiness / length test of the same container" % c, s.loc())
+                else:
+                    R.ob(rid, s.fn, s.site, False, "[L2] constant index %s into a decoded container with no dominating non-emptiness test: "
+                         "a decoded update can hold a client entry with no blocks (%s)" % (c, why), s.loc())
+                continue
             if lay == "L2" and s.cls in ("explicit", "index") and key not in table:
                 fed = _fed_from_parse_layer(Y, s, paths, layers)
                 if not fed:
